@@ -123,6 +123,27 @@ def run(prog, chk):
         j = callees(f, "Future<void>::join")
         rets = [i for i, n in enumerate(f.nodes) if n["k"] == "ReturnStmt"]
         err = ordered(f, [("join()", j), ("the read of result", rets)])
+        if not err:
+            # MPT: no way to the read of the result around join() - unless that way is taken only when the state says "finished" AND
+            # startProc puts the state back for every new run (otherwise the state of the previous run answers for the new one)
+            byp = q.must_pass_from_entry(f, j)
+            if byp is not None:
+                fin_edge = False
+                for (pb, pi), (nb, ni) in zip(byp, byp[1:]):
+                    blk = f.blocks[pb]
+                    if nb != pb and blk.get("cond") is not None and len(blk["succ"]) == 2 and blk["succ"][0] != blk["succ"][1]:
+                        for an, tr in q.cond_atoms(f, blk["cond"], blk["succ"][0] == nb):
+                            if tr and re.search(r"::isFinished$", f.nodes[f.strip(an)].get("callee", "") or ""):
+                                fin_edge = True
+                sp = fn1(prog, lambda g: g.name == "Future<void>::startProc", "startProc")[0]
+                resets = [s.node for s in q.stores(sp) if sp.r(s.lhs) == "this->_state"] + \
+                         [i for i in q.calls(sp) if sp.nodes[i].get("callee", "").startswith("Atomic::") and "_state" in sp.r(i)]
+                runs = callees(sp, "ThreadPool::run")
+                reset_ok = bool(resets) and bool(runs) and ordered(sp, [("the state reset", resets), ("threadPool->run()", runs)]) is None
+                if not (fin_edge and reset_ok):
+                    err = "a path (lines %s) reaches the read of result without join()%s" % (
+                        f.path_lines(byp), "; it is taken when isFinished() holds, but startProc never resets _state, so a future that is started "
+                        "again still answers with the previous run's state" if fin_edge else "")
         if err or not all("this->result" in f.r(r) for r in rets):
             chk.bad("C10.a", f, "result-read-before-join", "%s:%s" % (f.file, f.line), "the result conversion must join() before reading result: %s" % (err or "it returns something else"))
         else:
